@@ -13,7 +13,7 @@ CLAIM = dict(
          '(2) for every table with a named/unnamed set, two template attributes (ATTRIB or INVATR, every combination of the C/R/U/V characteristic bits, four rep codes) '
          'and 0..2 objects whose components are omitted / ABSATR / ATTRIB with every characteristic combination, the decoded set, labels, object names and cells '
          '(count, rep code, units, values; absent = None; omitted = template) equal the encoded model; (3) cell values with symbolic bytes; (4) logical files '
-         'split exactly at FILE-HEADER records for every sequence of <= 5 record kinds, encrypted records skipped.',
+         'split exactly at FILE-HEADER records for every sequence of <= 5 record kinds, encrypted records skipped; tables opened by set, replacement set and redundant set components; a table filling a visible record of the maximum length.',
     note='Trusted: CrossHair, z3, spec/rp66_eflr_ref.py (encoder + expected table written from RP66V1 3.2.2), spec/rp66_ref.py. Structure selectors are made concrete '
          'by solver-enumerated branching and the decode then runs natively (mark.untraced); value bytes are symbolic in obligation 3. Outside: OBJREF/DTIME/float cells, '
          'duplicate-object strategies other than the default, more than two template attributes.',
@@ -32,11 +32,15 @@ def ob_component_descriptor():
         ctx = P.Ctx()
         I = P.Interp(ctx)
         d = z3.BitVec('d', 8)
-        o = ctx.new_obj(CD, {'_desc': ctx.from_bv(d)})
+        # the object is made by the real constructor: descriptors it refuses never exist, and which ones it refuses is part of the claim
+        # (RP66V1 3.2.2.1: a set component must have the type characteristic, an object component the name; reserved bits are zero)
+        o = ctx.new_obj(CD, {})
+        init = I.call(CD.__init__, [o, ctx.from_bv(d)])
         role = z3.Extract(7, 5, d)
         bit = lambda k: z3.Extract(k, k, d) == 1
         attr_group = z3.ULT(role, 3)
         set_group = z3.UGT(role, 4)
+        valid = z3.And(z3.Implies(set_group, z3.And(bit(4), (d & 0x07) == 0)), z3.Implies(role == 3, z3.And(bit(4), (d & 0x0f) == 0)))
         exp = dict(is_attribute_group=attr_group, is_set_group=set_group, is_absent_attribute=role == 0, is_attribute=role == 1, is_invariant_attribute=role == 2,
                    is_object=role == 3, is_redundant_set=role == 5, is_replacement_set=role == 6, is_set=role == 7)
         goals, oks = [], []
@@ -52,18 +56,35 @@ def ob_component_descriptor():
             goals.append(z3.If(set_group, z3.And(r.ok(), ctx.lift_bool(r.value) == bit(k)), r.raised('ExceptionComponentDescriptorAccessError')))
         r = I.call(CD.has_object_N.fget, [o])
         goals.append(z3.If(role == 3, z3.And(r.ok(), ctx.lift_bool(r.value) == bit(4)), r.raised('ExceptionComponentDescriptorAccessError')))
-        res = P.decide([], [z3.And(*oks)] + goals, side=ctx.side, names=['d'])
+        res = P.decide([], [z3.If(valid, init.ok(), init.raised('ExceptionComponentDescriptorInit'))] + [z3.Implies(valid, g) for g in [z3.And(*oks)] + goals],
+                       side=ctx.side + init.side, names=['d'])
         res['functions'] = sorted(ctx.encoded)
         return res
 
     def replay(m):
-        from TotalDepth.RP66V1.core.LogicalRecord.ComponentDescriptor import ComponentDescriptor as CD
+        from TotalDepth.RP66V1.core.LogicalRecord import ComponentDescriptor as M
+        CD = M.ComponentDescriptor
         d = m.get('d', 0)
+        role = d >> 5
+        valid = not (role > 4 and (not d & 0x10 or d & 0x07)) and not (role == 3 and (not d & 0x10 or d & 0x0f))
         try:
             c = CD(d)
+        except M.ExceptionComponentDescriptorInit as e:
+            return valid, 'descriptor %#x refused by the constructor (%s)' % (d, type(e).__name__)
         except Exception as e:
-            return False, 'descriptor %#x refused by the constructor (%s)' % (d, type(e).__name__)
-        role = d >> 5
+            return True, 'descriptor %#x: constructor raised %s: %s' % (d, type(e).__name__, e)
+        if not valid:
+            return True, 'descriptor %#x accepted by the constructor (set without type / object without name / reserved bits)' % d
+        for name, applies, k in (('has_set_T', role > 4, 4), ('has_set_N', role > 4, 3), ('has_object_N', role == 3, 4)):
+            try:
+                v = bool(getattr(c, name))
+                if not applies or v != bool(d & (1 << k)):
+                    return True, 'descriptor %#04x: %s = %r' % (d, name, v)
+            except M.ExceptionComponentDescriptorAccessError:
+                if applies:
+                    return True, 'descriptor %#04x: %s refused (ExceptionComponentDescriptorAccessError)' % (d, name)
+            except Exception as e:
+                return True, 'descriptor %#04x: %s raised %s' % (d, name, type(e).__name__)
         got = (c.is_attribute_group, c.is_set_group, c.is_absent_attribute, c.is_attribute, c.is_invariant_attribute, c.is_object, c.is_set)
         exp = (role < 3, role > 4, role == 0, role == 1, role == 2, role == 3, role == 7)
         bad = got != exp
@@ -97,6 +118,14 @@ def obligations(tier):
            'with an encrypted record before its ORIGIN, PARAMETER table, encrypted record, a further ORIGIN record, a WELL-REFERENCE record, an encrypted indirectly formatted record}; one visible record per logical record or all in one',
            ['RP66V1.core.LogicalFile.LogicalIndex.__enter__', 'LogicalFile.LogicalFile.__init__/add_eflr/_add_origin_eflr/is_next', 'pIndex.LogicalRecordIndex', 'EFLR.ExplicitlyFormattedLogicalRecord'],
            harness='C03_eflr', func='logical_file_split', timeout=280 if q else 900, parts=28, stubs=['SymFile']),
+        Ob('table_filling_the_largest_visible_record', 'ch', 'a PARAMETER table (two objects, a long ASCII value, a two-element cell) that fills a visible record of exactly 16384 (the RP66V1 maximum) / 16382 / 16380 / 8192 bytes, '
+           'as one segment or two, with or without trailing length, followed or not by a second logical file',
+           ['RP66V1.core.LogicalFile.LogicalIndex.__enter__', 'pFile.VisibleRecord._read', 'pFile.FileRead.get_file_logical_data', 'EFLR.ExplicitlyFormattedLogicalRecord'],
+           harness='C03_eflr', func='big_table', timeout=170 if q else 600, stubs=['SymFile']),
+        Ob('tables_opened_by_each_kind_of_set', 'ch', 'a PARAMETER table (and optionally a TOOL table) opened by a set, replacement set or redundant set component (3 x 3 roles), '
+           'named or unnamed: set type and name, object names and every cell as encoded',
+           ['RP66V1.core.LogicalRecord.ComponentDescriptor.ComponentDescriptor (is_set_group / has_set_N)', 'EFLR.Set.__init__', 'EFLR.ExplicitlyFormattedLogicalRecord', 'LogicalFile.LogicalIndex.__enter__'],
+           harness='C03_eflr', func='set_kinds', timeout=170 if q else 600, stubs=['SymFile']),
         Ob('eflr_cell_values_symbolic', 'ch', 'two columns (USHORT, UVARI count 1..2), two objects (values, ABSATR, omitted); three fully symbolic value bytes',
            enc, harness='C03_eflr', func='eflr_values_symbolic', timeout=200 if q else 900, classify=_classify),
     ]
